@@ -55,6 +55,11 @@ def switch(target_handle: Handle[World], clear_current=False, clear_next=False,
     if from_world is None:
         from_world = desper.default_loop.current_world
 
+    # Clear the target before loading it, so that the events dispatched
+    # below reach the world instance that is actually going to be run
+    if clear_next:
+        target_handle.clear()
+
     to_world = target_handle()
 
     if from_world is not None:
@@ -69,7 +74,7 @@ def switch(target_handle: Handle[World], clear_current=False, clear_next=False,
     to_world.dispatch(ON_SWITCH_IN_EVENT_NAME, from_world, to_world)
 
     raise SwitchWorld(target_handle, clear_current=clear_current,
-                      clear_next=clear_next)
+                      clear_next=False)
 
 
 class Quit(Exception):
